@@ -599,7 +599,8 @@ func ruleCopierErrors(c *core.Ctx) {
 	for _, name := range []string{"Copy", "CopyDict", "CopyArray", "copyStreamDict"} {
 		name := name
 		c.Check(rule, "pdf.(*Copier)."+name+"/propagate", "every error of a nested copy is returned", func(o *core.Ob) {
-			fn := c.Prog.Func("pdf", "(*Copier)."+name)
+			// a per-function discipline: each declared function is checked as written
+			fn := c.Prog.RawFunc("pdf", "(*Copier)."+name)
 			checkErrorsPropagated(o, fn)
 		})
 	}
